@@ -53,6 +53,7 @@ import io  # noqa: E402
 from nutree import Tree  # noqa: E402
 
 APP_META = {"app": "scanner", "run": 1}
+APP_FILE_META = {}
 _PLAIN = Tree("notes")
 _PLAIN.add("note").add("sub")
 
@@ -372,14 +373,17 @@ def check_dir(ctx, out, spec, sorts=(True, False), label="rand"):
                     # the application keeps ONE metadata dict for all the files it writes - also those of its other (plain)
                     # trees: nothing of an earlier save may stick to it
                     meta_before = dict(APP_META)
-                    _PLAIN.save(io.StringIO(), meta=APP_META)
+                    plain_fp = io.StringIO()
+                    _PLAIN.save(plain_fp, meta=APP_META)
                     tree.save(target, compression=compression, meta=APP_META)
                     if APP_META != meta_before:
                         out.fail(rcase, f"save() changed the caller's metadata dict: {APP_META} (was {meta_before})")
                         APP_META.clear()
                         APP_META.update(meta_before)
                     kw = dict(mapper=FileSystemTree.deserialize_mapper) if explicit else {}
-                    fm = {}
+                    # ... and ONE dict that receives the header of every file it loads (first the plain tree's, then the scan's)
+                    fm = APP_FILE_META
+                    Tree.load(io.StringIO(plain_fp.getvalue()), file_meta=fm)
                     loaded = FileSystemTree.load(target, file_meta=fm, **kw)
                     if any(fm.get(k_) != v_ for k_, v_ in meta_before.items()):
                         out.fail(rcase, f"file_meta {fm} does not contain the stored metadata {meta_before}")
